@@ -173,20 +173,20 @@ Qed.
 
 (* ---------- the load function ---------- *)
 Lemma load_validates_l w sc vs :
-  load true w sc = Loaded vs ->
-  unmarshal true w sc = Some vs /\
+  load fixed w sc = Loaded vs ->
+  unmarshal fixed w sc = Some vs /\
   forall tr, ~ offender (combine (map fst (leaves [] sc)) vs) [] sc tr.
 Proof.
-  unfold load. destruct (unmarshal true w sc) as [vs'|]; [|discriminate].
+  unfold load. destruct (unmarshal fixed w sc) as [vs'|]; [|discriminate].
   destruct (validate _ [] sc) as [[tr ms]|] eqn:V; [discriminate|].
   intros H. inversion H; subst. split; auto. apply validate_complete. exact V.
 Qed.
 
 Lemma load_invalid_names_offender_l w sc vs tr ms :
-  load true w sc = Invalid vs tr ms ->
-  unmarshal true w sc = Some vs /\ offender (combine (map fst (leaves [] sc)) vs) [] sc tr.
+  load fixed w sc = Invalid vs tr ms ->
+  unmarshal fixed w sc = Some vs /\ offender (combine (map fst (leaves [] sc)) vs) [] sc tr.
 Proof.
-  unfold load. destruct (unmarshal true w sc) as [vs'|]; [|discriminate].
+  unfold load. destruct (unmarshal fixed w sc) as [vs'|]; [|discriminate].
   destruct (validate _ [] sc) as [[tr' ms']|] eqn:V; [|discriminate].
   intros H. inversion H; subst. split; auto. eapply validate_sound; eauto.
 Qed.
